@@ -299,9 +299,11 @@ int main(void)
             uint64_t fl = FNV0;
             size_t k = 0;
             const void *p = mp->next_obj;
+            const size_t slots = (size_t)mp->chunk_list_cnt * mp->incr_num;
             while (p != NULL) {
                 long c = chunk_of(p);
-                if (c < 0) { fl = fnv(fl, UINT64_C(999999)); k++; break; }
+                /* more free objects than slots: the list is cyclic */
+                if (c < 0 || k > slots) { fl = fnv(fl, UINT64_C(999999)); k++; break; }
                 fl = fnv(fl, (uint64_t)c);
                 fl = fnv(fl, (uint64_t)(((const char *)p - bases[c]) / 8));
                 k++;
